@@ -1,4 +1,41 @@
+(* C14: the properties of DecodeAnyBase64 / WhichBase64, stated in full.
+   Proofs are in Proofs/Base64.v. *)
 From WI Require Import Lib.Base Model.Base64.
-Theorem C14_placeholder : decode_any [] = Ok [].
-Proof. reflexivity. Qed.
-Print Assumptions C14_placeholder.
+From WI Require Proofs.Base64.
+Open Scope N_scope.
+
+(* The class table of the Go source is the RFC 4648 classification (all N, incl. >= 256). *)
+Theorem C14_table : forall b, cls b = spec_cls b.
+Proof. exact Proofs.Base64.cls_is_spec. Qed.
+Print Assumptions C14_table.
+
+(* Accepted exactly when one of the four standard decoders accepts. *)
+Theorem C14_accept_iff : forall s,
+  (exists bs, decode_any s = Ok bs) <-> (exists e bs, std_decode e s = Some bs).
+Proof. exact Proofs.Base64.decode_any_accept_iff. Qed.
+Print Assumptions C14_accept_iff.
+
+(* ... and then with the bytes of every standard decoder that accepts. *)
+Theorem C14_same_bytes : forall s bs, decode_any s = Ok bs ->
+  forall e bs', std_decode e s = Some bs' -> bs' = bs.
+Proof. exact Proofs.Base64.decode_any_same_bytes. Qed.
+Print Assumptions C14_same_bytes.
+
+Theorem C14_roundtrip : forall e w crlf bs, bytes_ok bs = true ->
+  decode_any (wrap w crlf (encode e bs)) = Ok bs.
+Proof. exact Proofs.Base64.roundtrip. Qed.
+Print Assumptions C14_roundtrip.
+
+Theorem C14_never_panics : forall s site, decode_any s <> Panic site.
+Proof. exact Proofs.Base64.decode_any_never_panics. Qed.
+Print Assumptions C14_never_panics.
+
+Theorem C14_class_abstraction : forall s s', map spec_cls s = map spec_cls s' ->
+  is_ok (decode_any s) = is_ok (decode_any s').
+Proof. exact Proofs.Base64.class_abstraction. Qed.
+Print Assumptions C14_class_abstraction.
+
+(* The code before the repair panics on "A=AA". *)
+Theorem C14_original_refuted : exists s site, decode_any_gen true s = Panic site.
+Proof. exact Proofs.Base64.original_refuted. Qed.
+Print Assumptions C14_original_refuted.
